@@ -249,6 +249,16 @@ pub fn run_seq(case: &Case, oracles: &mut [Box<dyn Oracle>], opts: &SeqOpts) -> 
         };
         // expectations from the reference (after the model update)
         let res = match res {
+            StepRes::Got { key, real, .. } if case.prog.lattice => {
+                let lat = crate::lat::Lat::new(&case.prog, &model);
+                let want = match lat.solve(key.0).0 {
+                    crate::lat::LatWant::Value(v) => Ok(ROut { v, ents: vec![], syms: vec![] }),
+                    crate::lat::LatWant::CyclePanic => Err(RPanic::Cycle),
+                    crate::lat::LatWant::Either => Err(RPanic::Either),
+                    crate::lat::LatWant::Diverge => Err(RPanic::Diverge),
+                };
+                StepRes::Got { key, real, want }
+            }
             StepRes::Got { key, real, .. } => {
                 let mut ev = Eval::new(&case.prog, &model);
                 let want = ref_eval_get(&mut ev, key.0, key.1);
@@ -266,6 +276,15 @@ pub fn run_seq(case: &Case, oracles: &mut [Box<dyn Oracle>], opts: &SeqOpts) -> 
         let rev = rev_num(&world.db);
         let recs = world.take_log();
         let base = ix.pos;
+        if std::env::var_os("VH_TRACE").is_some() {
+            eprintln!("--- step {idx} {step:?} rev R{rev} -> {res:?}");
+            for r in &recs {
+                match r {
+                    Rec::End(e) => eprintln!("    End {:?} out={:?} reads={:?} calls={:?}", e.key, e.out.v, e.reads, e.calls),
+                    r => eprintln!("    {r:?}"),
+                }
+            }
+        }
         ix.digest(&recs, rev, idx);
         let panicked = matches!(&res, StepRes::Got { real: Err(_), .. } | StepRes::Acc { real: Err(_), .. });
         if panicked {
@@ -317,6 +336,10 @@ pub fn run_seq(case: &Case, oracles: &mut [Box<dyn Oracle>], opts: &SeqOpts) -> 
     for o in oracles.iter_mut() {
         violations.extend(o.finish(case, &ix));
     }
+    // a mismatch that an oracle classified as a listed-finding pattern ("kf:" rules) also shows
+    // up in the fresh-database differential of the same step: keep only the classified one
+    let kf_steps: Vec<usize> = violations.iter().filter(|v| v.rule.starts_with("kf:")).map(|v| v.step).collect();
+    violations.retain(|v| !(v.rule == "incremental-differs-from-fresh-db" && kf_steps.contains(&v.step)));
     let mut labels = vec![];
     for o in oracles.iter() {
         labels.extend(o.labels());
@@ -387,6 +410,9 @@ fn strip_ids(g: &Got) -> (u32, Vec<(u32, u32, u32)>, Vec<(u8, u32)>) {
 }
 
 fn compare_fresh(idx: usize, key: (u8, u8), real: &Result<Got, Pan>, fresh: &Result<Got, Pan>, want: &Result<ROut, RPanic>) -> Option<Violation> {
+    if matches!(want, Err(RPanic::Either)) {
+        return None;
+    }
     match (real, fresh) {
         (Ok(a), Ok(b)) => {
             if strip_ids(a) != strip_ids(b) {
